@@ -21,8 +21,8 @@ CLAIMED["C06"] = (
 
 CLAIMED["C12"] = (
     "SX symbolic execution of the transformed GenBank-location, FASTQ and GFF3 code over symbolic positions, scores and characters (z3 decides branches and the round-trip assertion; concrete replay on the unmodified modules); edit histories of GenBankFile/FastaFile by solver-driven case split",
-    "Bounded model checking: (1) GenBank location strings: format->parse identity for symbolic positions up to 10^5 (10^8) with every expressible defect/strand combination, 1-2 locations; (2) FASTQ: write->read identity with every score symbolic over the full valid range of both offsets (so '@' and '+' may start any line), wrapping 1-3/None, 2 entries, edits; (3) GFF3: one symbolic field (value/key/seqid/source, length <= 3 (4)) through percent quoting and the line parser; (4) all edit sequences of length 2 (3) on GenBankFile vs a list model incl. out-of-range indices; (5) FASTA objects/convert on a sequence menu.",
-    "Trusted: SStr/SInt models (validated against CPython/urllib on every run), z3. Stubs: numpy int8<->bytes score conversion -> +-offset arithmetic; file objects -> symbolic text buffer; urllib quote/unquote -> models. Outside: GenBank qualifier regex and ORIGIN formatting, GenPept, sequences/headers beyond the menus, non-ASCII. One known finding (GFF3 trailing blank in the last column).",
+    "Bounded model checking: (1) GenBank location strings: format->parse identity for symbolic positions up to 10^5 (10^8) with every expressible defect/strand combination, 1-2 locations; (2) FASTQ: write->read identity with every score symbolic over the full valid range of both offsets (so '@' and '+' may start any line), wrapping 1-3/None, 2 entries, edits; (3) GFF3: one symbolic field (value/key/seqid/source, length <= 3 (4)) through percent quoting and the line parser; (4) all edit sequences of length 2 (3) on GenBankFile vs a list model incl. out-of-range indices; (5) FASTA objects/convert on a sequence menu; (6) annotations through the GenBank feature table and GFF3 (15-character keys, joins with mixed strands, every defect, qualifiers with spaces / slashes / '=' / several values / no value, annotated sequences with a sequence start).",
+    "Trusted: SStr/SInt models (validated against CPython/urllib on every run), z3. Stubs: numpy int8<->bytes score conversion -> +-offset arithmetic; file objects -> symbolic text buffer; urllib quote/unquote -> models. Outside: the GenBank qualifier regex on symbolic text (menus only), GenPept, sequences/headers beyond the menus, non-ASCII. One known finding (GFF3 trailing blank in the last column).",
     "DESIGN.md §4 C12")
 
 CLAIMED["C20"] = (
@@ -50,7 +50,7 @@ CLAIMED["C03"] = (
 
 CLAIMED["C05"] = (
     "KX: RunLength / IntegerPacking / Delta encoders and decoders of encoding.pyx lowered from source and executed over fully symbolic fixed-width elements (bit-vectors, every fused instantiation); compression driver, chains, masks, strings and files by solver-driven case split on boundary menus through the real build",
-    "Bounded model checking. For every fused integer instantiation (int8..uint32) and arrays of <= 3 (4) fully symbolic elements z3 shows decode(encode(x)) == x for run-length and delta encoding and, for |v| <= 3 (5) x max + 2, for integer packing into 1 and 2 bytes (or the encoder raised), with no out-of-bounds access. E-class: compress()/serialise/deserialise/read/write on all pairs (triples) of a 23-value integer boundary menu, a 15-value float menu x 3 tolerances x float32/64 x 3 container levels, non-finite/overflowing floats, strings with masks, 6 explicit chains.",
+    "Bounded model checking. For every fused integer instantiation (int8..uint32) and arrays of <= 3 (4) fully symbolic elements z3 shows decode(encode(x)) == x for run-length and delta encoding and, for |v| <= 3 (5) x max + 2, for integer packing into 1 and 2 bytes (or the encoder raised), with no out-of-bounds access. E-class: compress()/serialise/deserialise/read/write on all pairs (triples) of a 23-value integer boundary menu, a 15-value float menu x 3 tolerances x float32/64 x 3 container levels, non-finite/overflowing floats, strings with masks, 6 explicit chains; integer casts between every pair of the six integer types at the type limits (out-of-range values are refused, never wrapped).",
     "Trusted: lowering + typed runtime + symnp shim (validated against the compiled module per run), z3, numpy/msgpack in the E-class part. Outside: floating-point fixed-point/interval-quantisation arithmetic on symbolic floats (menu values only), arrays longer than the bound, StringArrayEncoding internals symbolically. Known finding: FixedPointEncoding.encode wraps silently.",
     "DESIGN.md §4 C05")
 
@@ -61,9 +61,9 @@ CLAIMED["C08"] = (
     "DESIGN.md §4 C08")
 
 CLAIMED["C09"] = (
-    "KX: ungapped seed-extension kernels lowered from source over symbolic codes, matrix and threshold (z3 decides equality with the X-drop definition); banded / gapped X-drop / ungapped wrappers by solver-driven case split against brute-force optima",
-    "Bounded model checking. Seed extension (both kernel variants): for diagonals of length 0..4 (6), every matrix entry in +-2^20 and every threshold, the result equals the X-drop definition, its score is the prefix sum of the returned length, never exceeds the best prefix and reaches it when the threshold cannot bind. E-class on the compiled align_local_ungapped / align_local_gapped / align_banded: every small input of the menus (shapes up to 3x3, asymmetric matrices, linear/affine gaps, every seed, thresholds 0..100, directions, every band incl. reversed and partly outside, local/semi-global): valid trace, reported == recomputed score, score_only consistency, seed/direction/band containment, <= brute-force optimum and == when the band covers the table / the threshold cannot bind.",
-    "Trusted: lowering + typed runtime (validated against the compiled module per run), the brute-force oracles, z3. Only the seed-extension kernels are encoded from source; the banded and X-drop table kernels are checked through the compiled binary (E-class). Outside: sequences longer than 4, |A| > 2. Known finding: align_banded boundary gap columns.",
+    "KX: ungapped seed-extension kernels and the banded table-fill kernels (linear and affine) lowered from source over symbolic codes, matrix, penalties and threshold (z3; int32 overflow modelled per operation); banded / gapped X-drop / ungapped wrappers by solver-driven case split against brute-force optima",
+    "Bounded model checking. Seed extension (both kernel variants): for diagonals of length 0..4 (6), every matrix entry in +-2^20 and every threshold, the result equals the X-drop definition, its score is the prefix sum of the returned length, never exceeds the best prefix and reaches it when the threshold cannot bind. Banded fill (linear): every in-band cell <= the unbanded optimum for its end point and == the banded recurrence in sequence coordinates, for 2x2..3x3 tables and their bands; banded fill (affine): no cell of the three tables exceeds the largest reachable score (the sentinel never wraps) - refuted by the solver, recorded as known finding. E-class on the compiled align_local_ungapped / align_local_gapped / align_banded: every small input of the menus (shapes up to 3x3, asymmetric matrices, linear/affine gaps, every seed, thresholds 0..100, directions, every band incl. reversed and partly outside, local/semi-global): valid trace, reported == recomputed score, score_only consistency, seed/direction/band containment, <= brute-force optimum and == when the band covers the table / the threshold cannot bind.",
+    "Trusted: lowering + typed runtime (validated against the compiled module per run), the brute-force oracles, z3. The table layout / initialisation of align_banded is transcribed in the harness (a change of the wrapper is seen by the E-class part only); the X-drop table kernels of localgapped.pyx are checked through the compiled binary only. Outside: sequences longer than 4, |A| > 2. Known findings: align_banded boundary gap columns; int32 overflow of the affine banded tables.",
     "DESIGN.md §4 C09")
 
 CLAIMED["C01"] = (
@@ -86,7 +86,7 @@ CLAIMED["C11"] = (
 
 CLAIMED["C04"] = (
     "solver-driven case split over menu-built structures through the real convert.py / cif.py / bcif.py / compress.py (write -> text/binary/compressed -> read -> field-wise comparison); the model number of get_structure is a z3 variable explored over -5..5 and None against a row-filter model",
-    "Bounded model checking (thin S + E). Model/altloc selection: for files with 1..3 models every model number in -5..5 and None and every altloc policy returns exactly the matching rows, 0 and out-of-range numbers are rejected. Round trip: 2 residues x 3 atoms with residue types incl. hetero ligands with quote/prime atom names, 4 chain ids (multi-letter, prime), negative and large residue ids, insertion codes, optional fields incl. a free-text field with quotes/blanks, 8 intra- and 5 inter-residue bond types, link partners, 3 box kinds, 1-2 models; CIF, BinaryCIF and compressed BinaryCIF read back equal to the input and to each other.",
+    "Bounded model checking (thin S + E). Model/altloc selection: for files with 1..3 models every model number in -5..5 and None and every altloc policy returns exactly the matching rows, 0 and out-of-range numbers are rejected. Round trip: 2 residues x 3 atoms with residue types incl. hetero ligands with quote/prime atom names, 4 chain ids (multi-letter, prime), negative and large residue ids, insertion codes, optional fields incl. a free-text field with quotes/blanks, 8 intra- and 5 inter-residue bond types, link partners, 3 box kinds, 1-2 models; CIF, BinaryCIF and compressed BinaryCIF read back equal to the input and to each other, also through the dictionary-based struct_conn matcher. Both matcher implementations on every small table (unique match incl. row 0, no match, ambiguity). Six occupancy patterns (ties, all zero) for the occupancy altloc policy.",
     "Trusted: numpy, the synthetic CCD fixture, z3 as case-split driver (the conversion layer is numpy-vectorised: apart from the model arithmetic everything is executed concretely per path, class E). Assumptions: adjacent canonical residues carry exactly the implicit peptide bond; inter-residue bond types limited to what struct_conn expresses. Outside: real CCD content, > 6 atoms, float coordinates beyond exactly representable menu values, assemblies.",
     "DESIGN.md §4 C04")
 
